@@ -496,6 +496,7 @@ class Comp:
         self.cases = []                   # dicts
         self.gcase = None
         self.flat = None
+        self.mapback_errors = []
 
     def compile(self):
         from unified_planning.engines import CompilationKind
@@ -552,9 +553,22 @@ class Comp:
                 if back is None:
                     achievers.append(c)
                 else:
-                    if back.action.name not in groups or back.agent is None or back.agent.name != ag.name:
-                        raise FlattenError("map_back sends %s.%s to %s" % (ag.name, c.name, back))
-                    groups[back.action.name].append(c)
+                    # the mapped-back instance must belong to the variant's OWN agent and be that agent's original
+                    # action (same-named actions of other agents are different actions)
+                    own = {a.name: a for a in ag.actions}
+                    err = None
+                    if back.agent is None or back.agent.name != ag.name:
+                        err = "an instance of agent %s" % (None if back.agent is None else back.agent.name)
+                    elif back.action.name not in own:
+                        err = "an action %s that agent %s does not have" % (back.action.name, ag.name)
+                    elif back.action != own[back.action.name]:
+                        err = "an action called %s that is not agent %s's action of that name" % (back.action.name, ag.name)
+                    if err is not None:
+                        self.mapback_errors.append({"agent": ag.name, "compiled_action": str(c), "mapped_back_to": err,
+                                                    "mapped_back_action": str(back.action),
+                                                    "own_action": str(own.get(back.action.name))})
+                    if back.action.name in groups:
+                        groups[back.action.name].append(c)
             setattr(self, "achievers_" + ag.name, achievers)
             for a in ag.actions:
                 fo = fl.action(a, M, ag.name, "o__" + a.name)
@@ -798,6 +812,10 @@ def run(ctx):
                 ctx.fail("impl-exception", "%s raised %s: %s" % (c.cname, type(e).__name__, str(e)[:200]),
                          ["c37", c.cname, "compile-raises", type(e).__name__],
                          {"problem": label, "compiler": c.cname, "problem_text": str(M)}, True)
+            for me in c.mapback_errors:
+                ctx.fail("oracle", "map_back_action_instance of %s sends a variant of agent %s to %s" % (
+                    c.cname, me["agent"], me["mapped_back_to"]), ["c37", c.cname, "map-back-wrong-original"],
+                    dict(me, problem=label, compiler=c.cname, problem_text=str(M)), True)
             if c.skipped is not None:
                 stats["skipped"][c.skipped] = stats["skipped"].get(c.skipped, 0) + 1
     live = [c for c in comps if c.skipped is None]
